@@ -73,12 +73,26 @@ def run_decl(kind, count):
 class C07(PropertyCheck):
     id = 'C07'
     imports = IMPORTS
-    technique = 'Coq proof of trampoline transparency and limit exactness (abstract) + reference evaluator with TCO on/off; shape x count differential correspondence'
+    technique = 'Coq proof of trampoline transparency and limit exactness (abstract) + reference evaluator with TCO on/off; table of tail-forwarding natives extracted from src/builtin/*.rs and proved equal to the modelled table; shape x count differential correspondence'
     trusted = ['shape templates cover the documented tail-forwarding functions (if, and, or, if_error, optional or, map_or)',
-               'the link between the abstract trampoline theorem and runtime_scope.rs is the correspondence']
+               'the link between the abstract trampoline theorem and runtime_scope.rs is the correspondence', 'translator/tailsites.py (regular expressions over src/builtin/*.rs: closures whose third parameter is named tca)']
     assumptions = ['see C02: reference evaluator coq/Lang/Eval.v']
     rule = ('every shape x iteration count in {0,1,2,10,1000,100000 (tail shapes)} x {no limits, depth limit 6, recursion limit = count / count-1}; '
             'distinct = (shape, count, limits); non-trivial = count >= 2')
+
+    def pre_build(self):
+        # every native that receives the tail flag as `tca` and the argument it forwards it to: coq/Extracted/Tails.v
+        from lib import extract
+        try:
+            self._tails = extract.run_all()['tailsites']
+            self._err = None
+        except Exception as e:        # fails closed
+            self._tails, self._err = {}, str(e)
+
+    def extracted_obligations(self):
+        if self._err:
+            return [('tailsites_translator', False, f'translator failed: {self._err}')]
+        return [('tailsites_translator_found_sites', self._tails.get('sites', 0) >= 1, f"{self._tails.get('sites')} tail-forwarding natives extracted")]
 
     def generate(self, rng, tier):
         return []
